@@ -17,7 +17,19 @@ META = {
                  "(in_flat_map / In_zrange / nia, explicit witnesses); verified boolean checkers evaluated by vm_compute "
                  "for the constant-table solids; kernel-checked correspondence batches (exact face/edge/cell lists, "
                  "coordinates through binary64) and an independent half-edge oracle on the real meshes",
-    "level_text": "see evidence (filled in by the check): per-generator theorems are listed in coq/theories/C14/Props.v",
+    "level_text": "Machine-checked Coq theorems, for ALL admissible parameters, about the definitions generated on every run from "
+                  "the current source of mouette/procedural: indices in range, every vertex used, simple faces, no directed "
+                  "edge twice (consistently oriented edge-manifold, no repeated face) for unit_grid, unit_triangle, torus, "
+                  "sphere_uv, cylinder, ring, flat_ring; documented vertex/face/edge counts (incl. unequal resolutions); closedness "
+                  "or the explicit border cycle(s), connectedness and Euler characteristic 2/0/1/0 for all of them except "
+                  "unit_triangle (PARTIAL: its border/Euler/connectedness, and the vertex-umbrella clause of every parametric "
+                  "generator, are established only per tested parameter tuple by a kernel-evaluated checker that is proved sound); "
+                  "the constant-table solids (triangle, quad, tetrahedron, hexahedron, cube, hexahedron_4pts, icosahedron and the "
+                  "duals octahedron, dodecahedron) completely, umbrellas included; triangulate/volume/open/loop switches and the "
+                  "call plumbing; on-surface identities over the reals for sphere_uv, torus, icosahedron, unit square, requested "
+                  "corners (PARTIAL: cylinder, ring rims, sphere_fibonacci and the ring apex defect are checked numerically only). "
+                  "icosphere, sphere_fibonacci(build_surface), spherify_vertices, cylindrify_edges are outside the generated model: "
+                  "independent oracle on the real meshes only.",
     "level_note": "Trusted: Coq kernel + vm_compute; the Python-ast -> Gallina translator vf/translate/c14.py (exercised: "
                   "every generated definition is also run against the implementation); the driver's canonicalisation; "
                   "numpy linspace/cos/sin vs. the model's binary64 evaluation within 1e-9; RawMeshData.prepare / "
@@ -207,6 +219,10 @@ def admissible(g, kw):
         return kw.get("n_refine", 3) >= 0
     if g == "sphere_fibonacci":
         return kw["n_pts"] >= 4
+    if g == "cylindrify_edges":
+        return kw.get("N", 50) >= 3
+    if g == "spherify_vertices":
+        return kw.get("n_subdiv", 1) >= 0
     return True
 
 
